@@ -17,7 +17,7 @@ EXTENDS Multipart
 
 CONSTANTS MaxLen1,      \* content length bound for single-part bodies
           MaxLen2,      \* content length bound for each part of two-part bodies
-          MaxLenN,      \* content length bound for the inner part of the nested family (-1: off)
+          MaxLenN,      \* content length bound for the inner part of the nested family (9: family off; cfg files cannot hold negative numbers)
           WithLen,      \* also parts that carry Content-Length (truthful, and lying by +1)
           HoldDelta,    \* 0; 1 = window too short (mutant)
           SizeMutant    \* FALSE; TRUE = size rule forgets the header block (mutant)
@@ -82,7 +82,7 @@ Obliged(parts, B) ==
 PartLists ==
     {<<P(c, hk)>> : c \in Strs(MaxLen1), hk \in HdrKinds}
     \cup {<<P(c1, "none"), P(c2, hk)>> : c1 \in Strs(MaxLen2), c2 \in Strs(MaxLen2), hk \in HdrKinds}
-    \cup (IF MaxLenN < 0 THEN {}
+    \cup (IF MaxLenN >= 9 THEN {}
           ELSE {<<[c |-> <<>>, hk |-> "multi", inner |-> <<P(c1, hk)>>], P(c2, "none")>> :
                     c1 \in Strs(MaxLenN), c2 \in Strs(Min(MaxLenN, 1)), hk \in HdrKinds})
 
